@@ -71,8 +71,8 @@ PROPS = {
     },
     "C04": {
         "suites": [("forest", 300, 6000)],
-        "proved_scope": "invariant Forest.inv (decidable; Forest.Inv as propositions): not corrupt, handles distinct and below next, every tree structurally valid (leaves are leaves, attribute/namespace nodes only under elements, documents only as roots, order namespaces < attributes < normal, unique attribute names and prefixes per element), no adjacent text while consolidation was never switched off. Proved for ALL forests satisfying it and ALL arguments (live, removed or never created) and every outcome (ok / err / panic): preserved by node creation (7 constructors), append, prepend, insert_after, insert_before, detach, remove, any_append, append_attribute_node / append_namespace_node, attribute and namespace map insert / remove / clear, set_element_name, text / comment / PI setters, text_content_mut().set, set_text_consolidation, remove_insignificant_whitespace, element_wrap, element_unwrap (the last two by evaluating their steps on the explicit forest: their intermediate states have two adjacent text nodes), and by the two consolidation helpers for arbitrary arguments (C04_step); hence every forest reachable from the empty store by such calls satisfies it (C04_reach, induction over the history, no liveness hypothesis needed). Handle bookkeeping of the indextree primitives as permutations (cut, remove_subtree, remove, the four raw insertions, new_node). Handles are never re-used: for EVERY call including replace, element_wrap, element_unwrap, clone_node, for all forests and arguments without any invariant, next does not decrease and every handle afterwards is an old handle or a fresh one (C04_step_le); hence is_removed is monotone along every history (C04_isRemoved_monotone, C04_isRemoved_history) and creation hands out a handle that was neither live nor removed (C04_fresh_handle). Partial results: replace preserves the invariant whenever the replaced node does not sit between two text nodes in strict mode (Forest.textGap = false; always so once consolidation has been off; C04_replace_partial); the replay loop of clone_node (cloneInto / cloneKids) and clone_node of documents and leaf nodes. The invariant is additionally evaluated on the model state after every step of every correspondence history and compared with an independent validator on the real forest",
-        "not_proved": "preservation of the full invariant by replace when the replaced node sits between two text nodes in strict mode (textGap = true: after remove_subtree the two texts are adjacent until insert_after and the final consolidation repair it), and by clone_node of an element (the final indextree remove of the temporary top: that the top is still a root with exactly one child is not proved), so these two are excluded from C04_reach (Op.core); for them only the handle part (never re-used, is_removed monotone) is proved; they are covered by the correspondence runs with Forest.inv evaluated after every step. mapInsert is proved for entry values of the map's kind (what the Rust API constructs) and mapInsertNode for element parents (what its public callers check): outside these the model statement is false (closed witnesses in Props/C04). clone_with_prefixes, create_missing_prefixes, deduplicate_namespaces, parsing into an existing store and the xml:id index are not in the forest model. That a live handle keeps its value until an operation changes that node is not stated as a theorem",
+        "proved_scope": "invariant Forest.inv (decidable; Forest.Inv as propositions): not corrupt, handles distinct and below next, every tree structurally valid (leaves are leaves, attribute/namespace nodes only under elements, documents only as roots, order namespaces < attributes < normal, unique attribute names and prefixes per element), no adjacent text while consolidation was never switched off. Proved for ALL forests satisfying it and ALL arguments (live, removed or never created) and every outcome (ok / err / panic): preserved by node creation (7 constructors), append, prepend, insert_after, insert_before, detach, remove, any_append, append_attribute_node / append_namespace_node, attribute and namespace map insert / remove / clear, set_element_name, text / comment / PI setters, text_content_mut().set, set_text_consolidation, remove_insignificant_whitespace, element_wrap, element_unwrap (the last two by evaluating their steps on the explicit forest: their intermediate states have two adjacent text nodes), and by the two consolidation helpers for arbitrary arguments (C04_step); hence every forest reachable from the empty store by such calls satisfies it (C04_reach, induction over the history, no liveness hypothesis needed). Handle bookkeeping of the indextree primitives as permutations (cut, remove_subtree, remove, the four raw insertions, new_node). Handles are never re-used: for EVERY call including replace, element_wrap, element_unwrap, clone_node, for all forests and arguments without any invariant, next does not decrease and every handle afterwards is an old handle or a fresh one (C04_step_le); hence is_removed is monotone along every history (C04_isRemoved_monotone, C04_isRemoved_history) and creation hands out a handle that was neither live nor removed (C04_fresh_handle). Partial results: replace preserves the invariant whenever the replaced node does not sit between two text nodes in strict mode (Forest.textGap = false; always so once consolidation has been off; C04_replace_partial); the replay loop of clone_node (cloneInto / cloneKids), clone_node of documents and leaf nodes, and clone_node of an element under the decidable guard Forest.cloneTopOK (the temporary top is still parentless with at most one child after the replay; C04_cloneNode_guarded). The invariant is additionally evaluated on the model state after every step of every correspondence history and compared with an independent validator on the real forest",
+        "not_proved": "preservation of the full invariant by replace when the replaced node sits between two text nodes in strict mode (textGap = true: after remove_subtree the two texts are adjacent until insert_after and the final consolidation repair it), and by clone_node of an element without the guard cloneTopOK (that the temporary top is still a root with at most one child after the replay is not proved), so these two are excluded from C04_reach (Op.core); for them only the handle part (never re-used, is_removed monotone) is proved; they are covered by the correspondence runs with Forest.inv evaluated after every step. mapInsert is proved for entry values of the map's kind (what the Rust API constructs) and mapInsertNode for element parents (what its public callers check): outside these the model statement is false (closed witnesses in Props/C04). clone_with_prefixes, create_missing_prefixes, deduplicate_namespaces, parsing into an existing store and the xml:id index are not in the forest model. That a live handle keeps its value until an operation changes that node is not stated as a theorem",
         "modelled": EXTERNAL + ["handles are creation-order numbers; indextree slot reuse and the 15-bit stamp are below the model"],
         "assumptions": ["none on arguments: the C04 theorems hold for arbitrary numbers as handles (a call on a non-live handle is refused by the argument checks or is the identity in the model; what the Rust does with a stale NodeId is below the model)"],
     },
